@@ -785,14 +785,12 @@ static void run_random(long count, uint64_t seed)
   static const int FL[7] = {0, 1, 2, 3, 47, 13, 14};
   static const char * EN[3] = {"axis", "angles", "degrees"};
   rng r(seed * 7919 + 17);
-  for (long it = 0; it < count; it++) {
-    Case c;
+  auto gen_cfg = [&](Case & c, Num & n) {
     c.entry  = EN[r.below(3)];
     c.filter = FL[r.below(7)];
     c.rank   = r.below(8) - 1;
     c.err    = r.below(2);
     c.rect   = r.below(3) == 0;
-    Num n;
     n.theta_deg   = 5.0 + 170.0 * r.u();
     n.phi_deg     = -180.0 + 360.0 * r.u();
     n.scale       = 0.1 + 10 * r.u();
@@ -805,6 +803,11 @@ static void run_random(long count, uint64_t seed)
       n.a1_deg     = r.below(6) == 0 ? 0.0 : 179.9 * r.u();
       n.cone_label = "circ";
     }
+  };
+  for (long it = 0; it < count; it++) {
+    Case c;
+    Num n;
+    gen_cfg(c, n);
     std::ostringstream rp;
     rp << "random it=" << it << " seed=" << seed;
     mdl_op op;
@@ -835,6 +838,50 @@ static void run_random(long count, uint64_t seed)
       }
       trace_apply(before, o, cone);
       if (trace.is_open()) ctr["trace_events"]++;
+    }
+    // the same operation OBJECT configured again (no reset of the object in between) behaves like a fresh object with the
+    // new settings: same deviates consumed, bit-identical momenta (MDL.tla: Configure is enabled in every phase)
+    {
+      Case c2;
+      Num n2;
+      gen_cfg(c2, n2);
+      bool ok2 = true;
+      mdl_op fresh;
+      try {
+        configure(op, c2.entry, c2, n2);
+        configure(fresh, c2.entry, c2, n2);
+      } catch (std::exception &) {
+        ok2 = false; // refusals of valid configurations are reported by the fresh-object path above
+      }
+      if (ok2) {
+        trace_configure(c2);
+        Cone cone2 = make_cone(n2, c2.rect);
+        int len    = 1 + r.below(6);
+        std::vector<int> sp(len);
+        for (int i = 0; i < len; i++) sp[i] = SP[r.below(4)];
+        event before = make_event(sp, r, n2, "random");
+        uint64_t ss  = r.u64();
+        Obs o1       = apply(op, before, ss, 2000000);
+        Obs o2       = apply(fresh, before, ss, 2000000);
+        ctr["applications"] += 2;
+        ctr["reconfigured_objects"]++;
+        bool same = o1.threw == o2.threw && o1.nonterm == o2.nonterm && o1.draws == o2.draws && o1.changed == o2.changed;
+        const auto & p1 = o1.after.get_particles();
+        const auto & p2 = o2.after.get_particles();
+        same            = same && p1.size() == p2.size();
+        for (size_t i = 0; same && i < p1.size(); i++)
+          same = same_bits(p1[i].get_px(), p2[i].get_px()) && same_bits(p1[i].get_py(), p2[i].get_py()) && same_bits(p1[i].get_pz(), p2[i].get_pz());
+        if (!same) {
+          add_viol(viols, "history:reconfigured-object:" + n.cone_label + "-then-" + n2.cone_label,
+                   "an operation object configured (" + n.cone_label + "), used, and configured again (" + n2.str() + ") differs from a fresh object with the same settings on the same event and deviates: "
+                     + std::to_string(o1.draws) + " vs " + std::to_string(o2.draws) + " deviates (event " + ev_str(before) + ")",
+                   rp.str());
+        }
+        if (!o1.nonterm) {
+          trace_apply(before, o1, cone2);
+          if (trace.is_open()) ctr["trace_events"]++;
+        }
+      }
     }
     trace << "{\"e\":\"Reset\"}\n";
     if (trace.is_open()) ctr["trace_executions"]++;
